@@ -148,12 +148,29 @@ def impl_run(case, built):
 
 def model_lines(case, built):
     m = mod(case["cls"])
-    return core.file_lines(built.files) + [m.open_line(case, built), m.stream_prefix(case, built) + " " + " ".join(core.op_tokens(case["queries"]))]
+    ops = " ".join(core.op_tokens(case["queries"]))
+    lines = core.file_lines(built.files) + [m.open_line(case, built), m.stream_prefix(case, built) + " " + ops]
+    if case["cls"] == "c01" and m.spec_line_wanted(built.info["tokens"]):
+        # QCOW2: the same history answered from the pointwise specification `guest` (an instance of
+        # `qcow2_stream_refines_array` on this image, buffer size and history)
+        toks = built.info["tokens"]
+        lines.append(f"qcow2.spec {case['align']} {len(toks)} " + " ".join(toks) + " " + ops)
+    return lines
 
 
 def model_parse(case, built, out):
+    """wf: the model's well-formedness flag of the class. QCOW2 (`qcow2.open <align> …`): every contributing layer satisfies
+    `conformantToB q (roundUp size align)` — tables well-formed up to the end of the last stream buffer, the hypothesis of
+    `qcow2_stream_refines_array` / `qcow2_backendOK` for this buffer size (Hv/Qcow2Stream.lean, `qcowWf` in the driver)."""
     wf = ("wf=1" in out[0]) if out and out[0].startswith("ok") else None
-    return {"answers": core.parse_stream_answer(out[1]) if len(out) > 1 else None, "wf": wf, "open": out[0] if out else None}
+    answers = core.parse_stream_answer(out[1]) if len(out) > 1 else None
+    rec = {"answers": answers, "wf": wf, "open": out[0] if out else None}
+    if case["cls"] == "c01" and len(out) > 2 and wf:
+        spec = core.parse_stream_answer(out[2])
+        rec["spec_eq_model"] = (spec == answers)
+        if spec != answers:
+            rec["spec"] = spec
+    return rec
 
 
 def nontrivial(case, built, model):
